@@ -272,7 +272,17 @@ func mutateVal(v core.Val, r *core.Rand) core.Val {
 			}
 			fallthrough
 		case 1:
-			out.M[i] = core.KV{K: append(append([]byte{}, out.M[i].K...), 'q'), V: out.M[i].V}
+			nk := append(append([]byte{}, out.M[i].K...), 'q')
+			for clash := true; clash; {
+				clash = false
+				for _, e := range out.M {
+					if string(e.K) == string(nk) {
+						clash = true
+						nk = append(nk, 'q')
+					}
+				}
+			}
+			out.M[i] = core.KV{K: nk, V: out.M[i].V}
 		default:
 			out.M[i] = core.KV{K: out.M[i].K, V: mutateVal(out.M[i].V, r)}
 		}
